@@ -440,7 +440,7 @@ static void solo_end(const char *op, unsigned long bound)
 	vrt_log("SOLO %s steps=%lu relax=%lu bound=%lu", op, st, rl, bound);
 	if (rl)
 		vrt_fail("progress", "%s run alone (all other threads frozen) executed %lu spin hints / polls", op, rl);
-	if (st > bound)
+	if (st > 4 * bound + 16)	/* generous: exact counts are the driver's business (divergence), see stack_oracle.h */
 		vrt_fail("progress", "%s run alone took %lu own steps, bound %lu", op, st, bound);
 	in_solo = 0;
 	n_solo++;
